@@ -517,6 +517,9 @@ func (n *Net) grantWrite(t *Task) string {
 	return fmt.Sprintf("%d", t.resp.n)
 }
 
+// BreakPipe: from now on every Write of the client fails (the connection is broken in the sending direction).
+func (c *Conn) BreakPipe() { c.brokenPipe = true }
+
 // Resume: the peer reads again. What the socket buffer took meanwhile reaches it now, in order.
 func (c *Conn) Resume() {
 	if !c.PeerStalled {
